@@ -49,6 +49,7 @@ def specPlain (σ : PSt) : Op → Option (PSt × Res)
   | .pin k v => if validKey k then some (updP σ k (some v), .bool true) else none
   | .get k => if validKey k then some (σ, .opt (σ k)) else none
   | .rem k => if validKey k then some (updP σ k none, .bool (σ k).isSome) else none
+  | .bad _ k => some (σ, .raise (if validKey k then .typeError else .keyError))      -- a rejected write is the identity
   | _ => none
 
 structure PRel (db : Db) (σ : PSt) : Prop where
@@ -119,6 +120,10 @@ theorem plain_step_refines {db : Db} {σ : PSt} (hr : PRel db σ) (op : Op) {σ'
   | itemsTop _ => simp [specPlain] at hspec
   | fullItems _ => simp [specPlain] at hspec
   | trim _ => simp [specPlain] at hspec
+  | bad p k =>
+    simp only [specPlain, Option.some.injEq, Prod.mk.injEq] at hspec
+    obtain ⟨rfl, rfl⟩ := hspec
+    exact ⟨db, rfl, hr⟩
 
 def specRunPlain (watch : List Bytes) : PSt → List Op → Option (List (Res × List Res))
   | _, [] => some []
